@@ -137,7 +137,7 @@ NOTES = {
              'prefixes, Base58 version bytes)',
     'c06_8': '**missed at first**: partially signed multisig stacks had no empty placeholders; C06 got the 27 slot layouts '
              '{signature, empty, absent}^3 per carrier - these showed that the unchanged library already rewrote most of them on '
-             'parsing (two genuine defects, repaired: df568f0, becc7bc - six open findings closed)',
+             'parsing (two genuine defects, repaired: df568f0, becc7bc - seven open findings closed)',
     'c07_8': '**missed at first**: explicit inputs were (txid, n) pairs or Input objects; C07 got the long tuple form (txid, n, key_id, '
              'value) with correct, stale and unknown entries beyond the first',
     'c09_8': '**missed at first**: paths were always relative to the default account; C09 got the event path_full (complete path text '
